@@ -326,6 +326,15 @@ class EvalMixin(CallMixin):
                         return (v if v is not NotImplemented else Sym(key)), Sym(key)
             if attr == "__name__":
                 return base.qual.rsplit(".", 1)[-1], None
+            if attr in ("model_fields", "__dataclass_fields__", "__annotations__") and base.qual in repo.classes:
+                # the declared fields of a model / dataclass (own and inherited), by name
+                names = {}
+                for q in reversed(repo.class_mro(base.qual)):
+                    ci_ = repo.classes.get(q)
+                    if ci_ is not None:
+                        for f_ in ci_.fields:
+                            names[f_] = Sym(f"{q}.{f_}:field")
+                return names, None
             if attr in ("__mro__", "__bases__") and base.qual in repo.classes:
                 mro = [q for q in repo.class_mro(base.qual)]
                 refs = tuple(ClassRef(q) for q in mro) + (ClassRef("builtins.object"),)
